@@ -36,6 +36,8 @@ struct Task {
   uint64_t next_event;      // yield count at which the slow path must run
   uint64_t next_preempt;    // yield count of next pre-emption (search: drawn; replay: from list)
   uint64_t switched_in_at;  // yields value when switched in
+  uint64_t blocked_at;      // yields value when the task last blocked (spin detection)
+  int64_t dil_out;          // part of the current run's dilation already added to dilation_closed (while switched out)
   size_t replay_idx;        // index in per-task replay preemption list
   const char* what; const void* obj; int64_t deadline; bool timed_out;
   uint32_t cnt[K_NKINDS];
@@ -53,6 +55,7 @@ struct G {
   uint64_t steps, switches;
   int64_t time_base;          // ns added by calls / jumps
   int64_t real_off;
+  int64_t dilation_closed;    // dilation of finished runs (tasks that have blocked since) and of the current runs of tasks that are switched out
   bool tail; uint64_t tail_limit; bool tail_requested;
   bool budget_exhausted, quiesced;
   uint64_t s[4];   // decision prng
@@ -130,7 +133,22 @@ bool inRun() { return g.in_run; }
 bool inTask() { return g.in_run && g.cur != 0; }
 int self() { return g.cur; }
 uint64_t stepNo() { return g.steps; }
-int64_t nowNs() { return g.time_base + (int64_t)g.steps * 50; }
+// Time dilation for spinning tasks: a task that keeps executing without ever blocking (a busy-wait) is charged more and more
+// simulated time per step: steps number i of an uninterrupted run cost 50 ns x 2^k for i in [q*2^k, q*2^(k+1)) (q = fairness
+// quantum, k <= 13, i.e. at most ~1 s per quantum).  A thread may run arbitrarily slowly, so this is a legal schedule; it keeps
+// "busy-wait until the next timer" affordable (liveness oracles are stated in steps) and never makes anything happen early.
+// The extra time is a pure function of the run length, evaluated lazily, so it does not depend on when the scheduler looks.
+static int64_t dilationOf(uint64_t run) {
+  uint64_t q = (uint64_t)g.cfg.fair_quantum; if (q == 0 || run < 2 * q) return 0;
+  int64_t d = 0;
+  for (int k = 1; k <= 13; ++k) { uint64_t lo = q << k, hi = (k == 13) ? ~0ULL : (q << (k + 1)); if (run <= lo) break; uint64_t n = (run < hi ? run : hi) - lo; d += (int64_t)n * 50 * (((int64_t)1 << k) - 1); }
+  return d;
+}
+int64_t nowNs() {
+  int64_t t = g.time_base + (int64_t)g.steps * 50 + g.dilation_closed;
+  if (g.cur) { Task& c = g.t[g.cur]; t += dilationOf(c.yields - c.blocked_at); }
+  return t;
+}
 int64_t realtimeNs() { return nowNs() + g.real_off; }
 void chargeCall() { g.time_base += 1000; }
 bool inTail() { return g.tail; }
@@ -238,7 +256,7 @@ int spawn(TaskFn fn, void* arg, const char* name) {
   // a re-used slot keeps its yield and decision counters running, so that (task, counter) keys stay unique within a run
   uint64_t keepYields = t.yields; uint32_t keepCnt[K_NKINDS]; memcpy(keepCnt, t.cnt, sizeof keepCnt);
   memset(&t, 0, sizeof t);
-  t.yields = keepYields; memcpy(t.cnt, keepCnt, sizeof keepCnt);
+  t.yields = keepYields; t.blocked_at = keepYields; t.dil_out = 0; memcpy(t.cnt, keepCnt, sizeof keepCnt);
   t.joiners = j; if (t.joiners) t.joiners->clear();
   t.state = 1; t.fn = fn; t.arg = arg; t.name = name; t.deadline = -1;
   char* top = STACK_BASE + (id + 1) * STACK_SIZE;
@@ -262,7 +280,8 @@ static void expireDeadlines() {
 static void switchTo(int next) {
   int prev = g.cur;
   if (prev == next) return;
-  if (prev) g.t[prev].saved_errno = errno;
+  if (prev) { g.t[prev].saved_errno = errno; Task& p = g.t[prev]; int64_t d = dilationOf(p.yields - p.blocked_at); g.dilation_closed += d - p.dil_out; p.dil_out = d; }
+  if (next) { Task& n = g.t[next]; g.dilation_closed -= n.dil_out; n.dil_out = 0; }
   g.t[prev].host_depth = g_host_depth_export; g_host_depth_export = g.t[next].host_depth;
   g.switches++;
   hmix(0x5157); hmix(prev); hmix(next); hmix(g.steps);
@@ -384,7 +403,8 @@ bool blockOn(const char* what, const void* obj, int64_t deadline) {
   Task& t = g.t[g.cur];
   if (t.nopreempt) stubError("blockOn(%s) inside NoPreempt", what);
   t.state = 2; t.what = what; t.obj = obj; t.deadline = deadline; t.timed_out = false;
-  g.steps++; t.yields++;
+  g.dilation_closed += dilationOf(t.yields - t.blocked_at) - t.dil_out; t.dil_out = 0;
+  g.steps++; t.yields++; t.blocked_at = t.yields;
   logText(what, 0, deadline, 0);
   scheduleAway();
   // resumed
@@ -428,7 +448,7 @@ Result run(const RunSpec& spec, const Config& cfg, const Hooks& hooks) {
   mapStacks();
   for (int i = 0; i <= MAXT; ++i) { std::vector<int>* j = g.t[i].joiners; memset(&g.t[i], 0, sizeof(Task)); g.t[i].joiners = j; if (j) j->clear(); }
   g.ntasks = 0; g.steps = 0; g.switches = 0; g.time_base = 1000000000LL; g.real_off = 1700000000LL * 1000000000LL + cfg.real_phase_ns;
-  g.tail = false; g.tail_requested = false; g.tail_limit = 0; g.budget_exhausted = false; g.quiesced = false; g.ending = false; g.rr_last = 0;
+  g.dilation_closed = 0; g.tail = false; g.tail_requested = false; g.tail_limit = 0; g.budget_exhausted = false; g.quiesced = false; g.ending = false; g.rr_last = 0;
   seedx(g.s, spec.seed ^ 0xD1CEULL); seedx(g.p, spec.seed ^ 0x9A11ULL);
   g.spec = &spec; g.cfg = cfg; g.hooks = hooks;
   { static const char* lk = getenv("SIM_LOGKEEP"); if (lk) g.cfg.log_keep = (size_t)atol(lk); } g.res = &res; g.hash = 0xcbf29ce484222325ULL;
